@@ -231,9 +231,10 @@ class Env(object):
         cols = ['id', 'a', 'p', 'b', 'q', 'zz', 'ww', 'yy', 'vv', 'abc', 'siteRef']
         self.rows = self.hs.Grid(version='3.0', columns=[(c, {}) for c in cols])
         self.rows.metadata['dis'] = 'c12'
-        self.rows.append({'id': 'x1', 'a': self.hs.Ref('x2'), 'p': self.hs.Ref('x2'), 'zz': self.hs.MARKER, 'ww': self.hs.MARKER,
+        # (the first two rows are identified by references, the others by strings: both are followed by a->b)
+        self.rows.append({'id': self.hs.Ref('x1'), 'a': self.hs.Ref('x2'), 'p': self.hs.Ref('x2'), 'zz': self.hs.MARKER, 'ww': self.hs.MARKER,
                           'abc': 1.0})
-        self.rows.append({'id': 'x2', 'b': 'abc', 'q': 'abc', 'yy': self.hs.MARKER, 'vv': self.hs.MARKER, 'abc': 'red',
+        self.rows.append({'id': self.hs.Ref('x2', 'Second'), 'b': 'abc', 'q': 'abc', 'yy': self.hs.MARKER, 'vv': self.hs.MARKER, 'abc': 'red',
                           'siteRef': self.hs.Ref('x1')})
         self.rows.append({'id': 'x3', 'b': 5.0, 'q': 5.0})
         X = self.hs.XStr
@@ -250,6 +251,15 @@ class Env(object):
                        [(k, list(v.items())) for k, v in g.column.items()], len(g))).encode('utf-8', 'replace'))
         for row in g:
             h.update(repr(list(row.items())).encode('utf-8', 'replace'))
+        # what the grid answers to lookups by id is part of the grid (evaluating a filter must not change it)
+        rows = list(g)
+        for key in ('x1', '@x1', 'x2', '@x2', "@x2 'Second'", 'x3', '@x3', 'x4', 'zz', 'Second'):
+            try:
+                r = g.get(key)
+                ans = 'none' if r is None else str([i for i, x in enumerate(rows) if x is r])
+            except Exception as e:
+                ans = type(e).__name__
+            h.update(('%s=%s;' % (key, ans)).encode('utf-8'))
         return h.hexdigest()[:12]
 
     # -- canary probes
@@ -526,7 +536,11 @@ def build_plan(lines, tier):
     some = next(iter(invalid.values()))['items'][0] if invalid else None
     if some is not None:
         texts = ['a == *', 'a == [*]', 'a == [*, *]', 'a ==  ', '*', 'a == [1,]x', '(' * 60 + 'a', '(' * 200, 'a == "' + '(' * 80, 'a and (' * 40 + 'b', '(' * 55 + 'a' + ')' * 54,
-                 'a == [' + '[' * 70, 'a == `' + '(' * 60, 'not ' * 60 + 'a', '(' * 51 + ' a ==']
+                 'a == [' + '[' * 70, 'a == `' + '(' * 60, 'not ' * 60 + 'a', '(' * 51 + ' a ==',
+                 # a lone word that Python takes for an identifier but that is no tag name (tags begin with a lower-case
+                 # ASCII letter): the whole filter, and as the last word of one
+                 '__import__', '__class__', '__builtins__', '_site', 'Exec', 'Site', 'None', 'True', u'\u00e9', u'a\u00e9', '_',
+                 ' __import__ ', 'a and __import__', 'a and Exec', 'not _site', '__import__ == 1', 'a->Site', 'a->__class__']
         invalid['handwritten_deep'] = {'k': 'invalid', 'shape': ('*', 'invalid', 'handwritten_deep', 'none'), 'items': [
             {'text': t, 'cls': 'invalid', 'mode': 'text', 'pay': '', 'pay2': '', 'esc': '', 'ctx': some['ctx']} for t in texts]}
     return benign, [payload[k] for k in sorted(payload)], [invalid[k] for k in sorted(invalid)]
